@@ -1505,6 +1505,7 @@ func main() {
 	case "sock":
 		processDeadline(subDeadline(tier)) // every wait inside is bounded; this is the last resort
 		sockSessions(tier)
+		acceptSessions(tier)
 	case "stress":
 		processDeadline(subDeadline(tier))
 		stress(tier)
